@@ -160,6 +160,61 @@ def correspond(ctx, corr):
         _correspond(ctx, corr, ctx.rng, ctx.thorough, ls)
     finally:
         ls.close()
+    derived_suite(ctx, corr)
+
+
+def derived_suite(ctx, corr):
+    """'values with any read-only location are refused before anything is sent' also for a value DERIVED from a
+    writable declared one (a vendor bank re-using a coding at read-only locations), and whatever was written
+    through the parent before: the first step of its write sequence raises, no command is yielded."""
+    from dali.memory import location as L, oem
+    from dali.address import GearShort
+    n = 0
+    parents = [v for v in (getattr(oem, "CCT", None), getattr(oem, "LuminaireColor", None),
+                           getattr(oem, "ManufacturerGTIN", None), getattr(oem, "NominalLightOutput", None))
+               if v is not None and all(l.type_.name in WRITEABLE for l in v.locations)]
+    for parent in parents:
+        w = len(parent.locations)
+        # the parent's own write is started first (its checks pass; the first command is all that is looked at)
+        try:
+            g = parent.write_raw(GearShort(1), bytes(w))
+            first = next(g)
+            g.close()
+        except Exception as e:  # noqa
+            first = "raises " + type(e).__name__
+        for typ in (L.MemoryType.ROM, L.MemoryType.NVM_RO, L.MemoryType.RAM_RO):
+            scratch = L.MemoryBank(242, 0xfe, has_lock=True)
+
+            def derive(par=parent, b=scratch, t=typ, n_=w):
+                class Derived(par):
+                    bank = b
+                    locations = L.MemoryRange(0x10, 0x10 + n_ - 1, default=0, type_=t)
+                return Derived
+            try:
+                child = derive()
+            except Exception as e:  # noqa
+                corr.violate("write:derived", {"parent": parent.name, "type": str(typ)}, "declared", type(e).__name__)
+                continue
+            sent = []
+            try:
+                g = child.write_raw(GearShort(1), bytes(w))
+                while True:
+                    sent.append(str(g.send(None)))
+                    if len(sent) > 3:
+                        g.close()
+                        break
+                out = "yielded " + ", ".join(sent)
+            except StopIteration:
+                out = "returned after " + str(len(sent)) + " commands"
+            except Exception as e:  # noqa
+                out = "raises %s after %d commands" % (type(e).__name__, len(sent))
+            if out != "raises MemoryValueNotWriteable after 0 commands":
+                corr.violate("write:derived-readonly", {"parent": parent.name, "derived locations": str(typ),
+                                                        "parent written first": str(first)},
+                             "raises MemoryValueNotWriteable after 0 commands", out,
+                             "a value with read-only locations must be refused before anything is sent")
+            n += 1
+    corr.count("derived_readonly", n)
 
 
 def _correspond(ctx, corr, rng, T, ls):
